@@ -6,6 +6,7 @@ import (
 	"math"
 	"reflect"
 	"sort"
+	"time"
 	"unsafe"
 )
 
@@ -51,6 +52,15 @@ func (s *snap) value(v reflect.Value, depth int) {
 		return
 	}
 	s.str(v.Type().String())
+	if v.Type() == timeType {
+		// time.Location caches lookups lazily: hash the instant and the offset, not the internals
+		t := readableTime(v)
+		_, off := t.Zone()
+		s.mix(uint64(t.Unix()))
+		s.mix(uint64(t.Nanosecond()))
+		s.mix(uint64(off))
+		return
+	}
 	switch v.Kind() {
 	case reflect.Bool:
 		if v.Bool() {
@@ -118,12 +128,15 @@ func (s *snap) value(v reflect.Value, depth int) {
 			if !f.CanInterface() {
 				if f.CanAddr() {
 					f = reflect.NewAt(f.Type(), unsafe.Pointer(f.UnsafeAddr())).Elem()
-				} else {
+				} else if v.CanInterface() {
 					// not addressable: copy the struct into addressable memory first
 					cp := reflect.New(v.Type()).Elem()
 					cp.Set(v)
 					f = cp.Field(i)
 					f = reflect.NewAt(f.Type(), unsafe.Pointer(f.UnsafeAddr())).Elem()
+				} else {
+					s.mix(11) // unreachable without copying a read-only value: not hashed
+					continue
 				}
 			}
 			s.value(f, depth+1)
@@ -149,4 +162,14 @@ func (s *snap) value(v reflect.Value, depth int) {
 	default:
 		s.str(fmt.Sprintf("kind%d", v.Kind()))
 	}
+}
+
+func readableTime(v reflect.Value) time.Time {
+	if v.CanInterface() {
+		return v.Interface().(time.Time)
+	}
+	if v.CanAddr() {
+		return *(*time.Time)(unsafe.Pointer(v.UnsafeAddr()))
+	}
+	return time.Time{}
 }
